@@ -135,6 +135,18 @@ def call_getter(table, g):
     raise KeyError(k)
 
 
+LAZY_GETTERS = ('traverse', 'traverse_columns', 'row_traverse')
+
+
+def call_generator(table, g):
+    """the generator itself, for lazy consumption (nothing is computed before the first next())"""
+    k = g[0]
+    if k == 'traverse': return 'flat', table.traverse(start=g[1], end=g[2])
+    if k == 'traverse_columns': return 'flat', table.traverse_columns(start=g[1], end=g[2])
+    if k == 'row_traverse': return 'cells', table.get_row(g[1], clone=g[2]).traverse(start=g[3], end=g[4])
+    raise KeyError(k)
+
+
 def c_oz(v):
     return 'None' if v is None else 'Some (%d)' % v
 
@@ -238,31 +250,75 @@ def run_case_once(odfdo, case):
         pre = r.abs()
         g = case['getter']
         raised, shape, objs = None, 'flat', []
-        try:
-            shape, res = tl.timed(call_getter, t, g)
-            nested = res if shape == 'cells' else [res]
-            objs = [[o for o in line] for line in nested]
-        except Exception as e:
-            raised = repr(e)
-        post = r.abs()
-        flat = [o for line in objs for o in line]
-        obs = [observe(r, o) for o in flat]
-        # mutate the planned objects one after the other; after each: the table and every other returned object
-        prev_table = post
-        prev_ser = [o.serialize() for o in flat]
+        lazy = bool(case.get('lazy')) and g[0] in LAZY_GETTERS
+        plan = {}
         for idx, kind in case.get('mutate', []):
-            if idx >= len(flat) or kind not in MUT[obs[idx]['kind']] or obs[idx].get('mutated'):
-                continue
+            plan.setdefault(idx, kind)
+        if not lazy:
             try:
-                tl.timed(do_mutation, odfdo, flat[idx], kind, idx)
+                shape, res = tl.timed(call_getter, t, g)
+                nested = res if shape == 'cells' else [res]
+                objs = [[o for o in line] for line in nested]
             except Exception as e:
-                obs[idx]['mutation_error'] = repr(e)
-                continue
-            now_table = r.abs()
-            now_ser = [o.serialize() for o in flat]
-            obs[idx].update(mutated=True, tch=now_table != prev_table,
-                            och=any(now_ser[j] != prev_ser[j] for j in range(len(flat)) if j != idx), mutation=kind)
-            prev_table, prev_ser = now_table, now_ser
+                raised = repr(e)
+            post = r.abs()
+            flat = [o for line in objs for o in line]
+            obs = [observe(r, o) for o in flat]
+            # mutate the planned objects one after the other; after each: the table and every other returned object
+            prev_table = post
+            prev_ser = [o.serialize() for o in flat]
+            for idx, kind in case.get('mutate', []):
+                if idx >= len(flat) or kind not in MUT[obs[idx]['kind']] or obs[idx].get('mutated'):
+                    continue
+                try:
+                    tl.timed(do_mutation, odfdo, flat[idx], kind, idx)
+                except Exception as e:
+                    obs[idx]['mutation_error'] = repr(e)
+                    continue
+                now_table = r.abs()
+                now_ser = [o.serialize() for o in flat]
+                obs[idx].update(mutated=True, tch=now_table != prev_table,
+                                och=any(now_ser[j] != prev_ser[j] for j in range(len(flat)) if j != idx), mutation=kind)
+                prev_table, prev_ser = now_table, now_ser
+        else:
+            # LAZY consumption of a generator: object k is observed as it is yielded and mutated at once, BEFORE object k+1 is
+            # asked for; what is yielded later is compared with the eager list of the same call on an untouched twin
+            twin = r.fresh_of(t)
+            shape, tres = tl.timed(lambda: (lambda sh, gen: (sh, list(gen)))(*call_generator(twin, g)))
+            twin_obs = [observe(r, o) for o in tres]
+            flat, obs = [], []
+            prev_table = pre
+            prev_ser = []
+            last_mutated = None
+            try:
+                shape, gen = tl.timed(call_generator, t, g)
+                k = 0
+                while True:
+                    try:
+                        o = tl.timed(next, gen)
+                    except StopIteration:
+                        break
+                    flat.append(o); ob = observe(r, o); obs.append(ob)
+                    if k < len(twin_obs) and last_mutated is not None and {a: ob[a] for a in ('x', 'y', 'rep', 'val') if a in ob} != {a: twin_obs[k][a] for a in ('x', 'y', 'rep', 'val') if a in twin_obs[k]}:
+                        obs[last_mutated]['och'] = True       # an earlier mutation shows in an object yielded later
+                    kind = plan.get(k)
+                    if kind in MUT[ob['kind']]:
+                        try:
+                            tl.timed(do_mutation, odfdo, o, kind, k)
+                            now_table = r.abs()
+                            now_ser = [x.serialize() for x in flat]
+                            ob.update(mutated=True, tch=now_table != prev_table,
+                                      och=any(now_ser[j] != prev_ser[j] for j in range(len(flat) - 1)), mutation=kind)
+                            prev_table = now_table
+                            last_mutated = k
+                        except Exception as e:
+                            ob['mutation_error'] = repr(e)
+                    prev_ser = [x.serialize() for x in flat]
+                    k += 1
+            except Exception as e:
+                raised = repr(e)
+            objs = [flat]
+            post = r.abs() if not any(o.get('tch') for o in obs) else pre
     except Exception as e:
         return dict(term=None, error='abstraction: %r' % (e,), records=[])
     # rebuild the nesting
@@ -273,7 +329,7 @@ def run_case_once(odfdo, case):
     else:
         cres = 'IFlat [%s]' % ';'.join(c_iobj(o) for o in (nested_obs[0] if nested_obs else []))
     term = '(Obs8 %s\n (%s) %s\n %s\n (%s))' % (tl.c_xtable(pre), c_getter(g), lb.c_b(bool(raised)), tl.c_xtable(post), cres)
-    rec = dict(getter=g, raised=raised, pre=pre, post=post, objects=nested_obs, shape=tl.shape_of(pre))
+    rec = dict(getter=g, raised=raised, pre=pre, post=post, objects=nested_obs, shape=tl.shape_of(pre), lazy=lazy)
     return dict(term=term, error=None, records=[rec])
 
 
@@ -292,7 +348,7 @@ def run_case(odfdo, case):
 def gen_case(odfdo, seed, kind, nsteps, maxw, maxh):
     rng = random.Random(seed)
     init = lb.init_xml_of(odfdo, rng, kind, maxw, maxh)
-    case = dict(kind=kind, init_xml=init, steps=[], getter=None, mutate=[])
+    case = dict(kind=kind, init_xml=init, steps=[], getter=None, mutate=[], lazy=False)
     try:
         r = lb.Runner(odfdo, init)
         nodes = r.init_nodes
@@ -314,12 +370,15 @@ def gen_case(odfdo, seed, kind, nsteps, maxw, maxh):
     except Exception as e:
         return case, dict(term=None, error='setup: %r' % (e,), records=[])
     case['getter'] = g_getter(rng, nodes)
+    case['lazy'] = case['getter'][0] in LAZY_GETTERS and rng.random() < 0.6
     # the mutation plan: up to 10 of the returned objects (first, last, random others), one mutation kind each
     cols, rows = tl.shape_of(nodes)
     bound = (sum(r for r, _ in rows) + 2) * (sum(r for r, _ in cols) + 2) + 4
     idxs = list(dict.fromkeys(list(range(min(bound, 6))) + [rng.randrange(bound) for _ in range(6)]))
     kinds = ['style', 'value', 'repeated', 'append']
     case['mutate'] = [[i, rng.choice(kinds)] for i in idxs]
+    if case['lazy']:      # lazy consumption: (almost) every yielded object is mutated at once
+        case['mutate'] = [[i, rng.choice(kinds)] for i in range(min(bound, 40)) if rng.random() < 0.8]
     return case, run_case(odfdo, case)
 
 
@@ -419,7 +478,7 @@ def run(tier, seed, replay=None):
         case, res = results[i]
         rec = res['records'][0]
         g = case['getter']
-        name = g[0] + ('[clone=False,keep_repeated=False]' if g[0] == 'get_cell' and not g[3] and not g[4] else '') + ('[area]' if layer == 12 else '')
+        name = ('lazy ' if case.get('lazy') and g[0] in LAZY_GETTERS else '') + g[0] + ('[clone=False,keep_repeated=False]' if g[0] == 'get_cell' and not g[3] and not g[4] else '') + ('[area]' if layer == 12 else '')
         key = '%s/%s' % (name, LAYERS[layer][0])
         if key in seen_keys:
             continue
@@ -453,10 +512,11 @@ def run(tier, seed, replay=None):
     violations += common.proof_violation(PROP, seed, proofs, errors + soft_msgs, bool(hard) or found_by_oracle)
     # ---- evidence
     done = [(c, r) for c, r in results if r['term'] is not None]
-    gk, nobj, nmut, mk, distinct, live_seen, beyond = {}, 0, 0, {}, set(), 0, 0
+    gk, nobj, nmut, mk, distinct, live_seen, beyond, nlazy = {}, 0, 0, {}, set(), 0, 0, 0
     for case, res in done:
         rec = res['records'][0]
         gk[case['getter'][0]] = gk.get(case['getter'][0], 0) + 1
+        nlazy += bool(rec.get('lazy'))
         objs = [o for line in rec['objects'] for o in line]
         nobj += len(objs)
         for o in objs:
@@ -471,10 +531,10 @@ def run(tier, seed, replay=None):
         trusted_base=TRUSTED, evaluations=len(done), distinct_nontrivial=len(distinct), returned_objects=nobj, mutated_objects=nmut,
         rule='a table reached by 0-%d C01 operations (interleaved with cache-filling reads) from {empty, Table(w,h), random run-length shapes as XML text, clamped sample .ods tables}, then one getter of '
              '{get_cell get_row get_cells cells get_rows rows traverse get_column get_columns columns traverse_columns get_column_cells Row.get_cell Row.traverse Row.cells Row.get_cells} with clone / keep_repeated flags and coordinates around the run '
-             'boundaries of that state (edge, beyond, negative, crossed, tuple and string forms); up to 12 returned objects mutated (style attribute, value, repeated, appended cell), table and siblings re-abstracted after each. '
+             'boundaries of that state (edge, beyond, negative, crossed, tuple and string forms); the generators traverse / Row.traverse / traverse_columns are consumed LAZILY in 60 percent of their cases (each yielded object observed and mutated at once, before the next one is asked for; later objects compared with the eager list of the same call on an untouched twin); up to 12 returned objects mutated (style attribute, value, repeated, appended cell), table and siblings re-abstracted after each. '
              'distinct_nontrivial = distinct (run shape, getter call) on tables that hold a repeated run' % (4 if tier == 'quick' else 7),
         samples=[dict(initial=c['init_xml'][:300], steps=c['steps'][:3], getter=c['getter'], mutate=c['mutate'][:4]) for c, r in done[len(corpus):len(corpus) + 3]],
-        corpus_cases=len(corpus), getters=gk, mutations_by_kind=mk, mutations_that_reached_the_table=live_seen, setup_histories_discarded_because_a_setup_call_raised=skipped,
+        corpus_cases=len(corpus), getters=gk, lazily_consumed_generator_cases=nlazy, mutations_by_kind=mk, mutations_that_reached_the_table=live_seen, setup_histories_discarded_because_a_setup_call_raised=skipped,
         fidelity_divergences=fid, fidelity_ratio=round(1 - fid / max(1, len(done)), 4), modelled=MODELLED, exhaustive=False,
         known_findings_reobserved=len(known_seen))
     if fid:
